@@ -1122,6 +1122,11 @@ func c06BodyLenFor(r *rand.Rand, m int64) int {
 	case 1:
 		return []int{1, 2, 511, 512, 513, 65535, 65536}[r.Intn(7)]
 	}
+	if r.Intn(150) == 0 {
+		// now and then a body far beyond any buffer or "reasonable" remainder: with max-body set,
+		// hundreds of kilobytes are left to be drained
+		return 200<<10 + r.Intn(900<<10)
+	}
 	return c06LogLen(r, 65536)
 }
 
